@@ -197,4 +197,55 @@ pub fn profiles_differ(a: &Profile, b: &Profile, cond: &[Vec<f64>; 2], payoff_co
     None
 }
 
+/// Stability probe for "equal within rounding" judgments: solves `tree` again (same
+/// configuration, same pinned sampling) with every payoff perturbed by an independent relative
+/// 1e-14..1e-13 and returns the largest change of any returned probability or (relative) bound
+/// against `base`. Regret dynamics can be unstable: on a symmetric game an asymmetry of 1e-16
+/// grows by an order of magnitude per iteration. If a rounding-sized perturbation of the input
+/// moves the output about as much as the difference under judgment, that difference says nothing
+/// about the code.
+pub fn stability_probe(tree: &HNode, cfg: &Cfg, sampling: &dyn Fn() -> Sampling, base: &Out, salt: u64) -> f64 {
+    use crate::rng::{mix, Rng};
+    fn perturb(n: &HNode, r: &mut Rng) -> HNode {
+        match n {
+            HNode::Term(p) => HNode::Term(p * (1.0 + (if r.chance(0.5) { 1.0 } else { -1.0 }) * (1e-14 + 9e-14 * r.unit()))),
+            HNode::Chance { info, outs } => HNode::Chance { info: info.clone(), outs: outs.iter().map(|(w, k)| (*w, perturb(k, r))).collect() },
+            HNode::Player { p, info, acts } => HNode::Player { p: *p, info: info.clone(), acts: acts.iter().map(|(a, k)| (a.clone(), perturb(k, r))).collect() },
+        }
+    }
+    let mut worst = 0.0f64;
+    for k in 0..2u64 {
+        let mut prng = Rng::new(mix(salt ^ 0x9e37 ^ k));
+        let ptree = perturb(tree, &mut prng);
+        let Ok(pprep) = Prepared::new(&ptree) else { continue };
+        let scale = pprep.flat.max_abs_payoff().max(1e-300);
+        if let Outcome::Ok(pa) = run(&pprep, cfg, Some(Config { flags: 0, sampling: sampling(), jitter_seed: 0 })) {
+            for p in 0..2 {
+                for (x, y) in pa.dense[p].iter().zip(base.dense[p].iter()) {
+                    for (u, v) in x.iter().zip(y.iter()) {
+                        let d = (u - v).abs();
+                        worst = worst.max(if d.is_nan() { f64::INFINITY } else { d });
+                    }
+                }
+                worst = worst.max((pa.bounds[p] - base.bounds[p]).abs() / scale);
+            }
+        }
+    }
+    worst
+}
+
+/// the largest difference of any probability, and of the bounds relative to `scale`
+pub fn max_difference(a: &Out, b: &Out, scale: f64) -> f64 {
+    let mut w = 0.0f64;
+    for p in 0..2 {
+        for (x, y) in a.dense[p].iter().zip(b.dense[p].iter()) {
+            for (u, v) in x.iter().zip(y.iter()) {
+                w = w.max((u - v).abs());
+            }
+        }
+        w = w.max((a.bounds[p] - b.bounds[p]).abs() / scale.max(1e-300));
+    }
+    w
+}
+
 pub const ALL_LOGS: u32 = verif::LOG_DRAW | verif::LOG_VISIT | verif::LOG_STATE | verif::LOG_PASS;
